@@ -179,6 +179,40 @@ def case(rep, drv, rnd, i, tier):
             cli_budget -= 1
             if not cli_rejects(rep, t2, label):
                 return
+    if i % 6 == 0:
+        import os, subprocess, tempfile
+        import yldprolog.compiler as C
+        k = rnd.randrange(len(text) + 1)
+        raw = text[:k].encode('utf8') + rnd.choice([b'\xff', b'\xe9', b'\xc3', b'\xf0\x9f']) + text[k:].encode('utf8')
+        try:
+            raw.decode('utf8')
+            valid = True
+        except UnicodeDecodeError:
+            valid = False
+        if not valid:
+            with tempfile.TemporaryDirectory(prefix='yldverif') as td:
+                src = os.path.join(td, 'bytes.prolog')
+                open(src, 'wb').write(raw)
+
+                class Ctx:
+                    debug_filename = ''
+                    debug_parser = False
+                    debug_generator = False
+                    current_source_file = src
+                    outf = None
+                try:
+                    C.compile_prolog_from_file(src, Ctx)
+                    lib_ok = True
+                except Exception:
+                    lib_ok = False
+                env = dict(os.environ)
+                env['PYTHONPATH'] = os.path.join(common.REPO, 'src')
+                p = subprocess.run([common.PY, '-m', 'yldprolog.compiler', '--', src], capture_output=True, env=env, timeout=120)
+            rep.count('invalid-utf8-source')
+            if lib_ok or p.returncode == 0:
+                rep.violation({'kind': 'a source file that is not valid UTF-8 is compiled (%s)' % ('library' if lib_ok else 'command line'),
+                               'bytes': repr(raw[:200]), 'position': k})
+                return
     if i < 2:
         rep.sample({'text': text, 'corruptions': [c for c in corruptions(rnd, text, spans)[:4]]})
 
